@@ -37,6 +37,11 @@ def instances(tier, seed):
     add("place:S15:planar3->CNF:axis0:triclinic", struct='S15', repl='planar3->CNF', axes=[0], other=(0, 0.6, 0.2), cost=20)
     add("place:S4:collinear3->OCF:axis0", struct='S4', repl='collinear3->OCF', axes=[0], other=(0, 0.5, 0.8), cost=40)
     add("place:S4:collinear3->OCSN:axis2", struct='S4', repl='collinear3->OCSN', axes=[2], other=(0.7, 0.5, 0), cost=40)
+    # one-atom replacements away from the anchor atom: they are rotated with the match like any other
+    add("place:S5:pair->F-off-anchor:axis1", struct='S5', repl='pair->F-off-anchor', axes=[1], other=(0.3, 0, 0.9), cost=30)
+    add("place:S2:chiral4->S-off-anchor:axis0:triclinic", struct='S2', repl='chiral4->S-off-anchor', axes=[0], other=(0, 0.7, 0.2), cost=30)
+    # two occurrences whose orientations differ by a fraction of a degree, replacement reaching 4 A from the anchor
+    add("place:S32:chiral4->big:nearly-equal-orientations", struct='S32', repl='chiral4->big', axes=[2], other=(0.4, 0.1, 0), cost=30)
     add("place:S6:single->F:axis1", struct='S6', repl='single->F', axes=[1], other=(0.3, 0, 0.4), cost=10)
     add("place:S8:linear-sym3->OCS:axis0:triclinic", struct='S8', repl='linear-sym3->OCS', axes=[0], other=(0, 0.2, 0.7), symmetric=True, cost=40)
     add("place:S12:ch2-sym3->CFF:axis1", struct='S12', repl='ch2-sym3->CFF', axes=[1], other=(0.2, 0, 0.7), symmetric=True, cost=40)
